@@ -3,7 +3,8 @@
 Case line (fields separated by one space; names, paths and link targets hex encoded; '-' = empty):
 
   copy <blocksize> <ctrOutHex> <host> <mounts> <secrets> <colls>
-    host    ';'-list of <relpathHex>:f:<seed>.<len> | …:d: | …:l:<targetHex> | …:p:      (parents first; paths
+    host    ';'-list of <relpathHex>:f:<seed>.<len> | …:d: | …:l:<targetHex> | …:p: | …:s: | …:c: | …:b:  (FIFO, socket,
+            character / block device; parents first; paths
             relative to a fresh temp root R; the host output directory is R/h1/h2/o)
     mounts  ';'-list of <ctrPathHex>:<kind>:<flags>:<coll>:<pathHex>    flags ⊆ "wx" | "-"; coll = index | "-"
     secrets ','-list of <ctrPathHex>
@@ -28,7 +29,8 @@ RULE = ("generated host trees (depth <= 4, <= 40 entries, file sizes 0 to severa
         "blocks, zero-length files, repeated file tokens, empty-directory markers, escaped names), 0-2 secret "
         "mounts (inside and outside the output path); directories that leave five or more blocks to commit when the "
         "copier moves on to another directory (6 % of the trees); plus irregular link targets (absolute targets that are not "
-        "path-cleaned, targets that pass through a symlinked directory), FIFOs, unsupported mount kinds, unknown "
+        "path-cleaned, targets that pass through a symlinked directory), special files of every kind (FIFO, socket, "
+        "character device, block device), unsupported mount kinds, unknown "
         "portable data hashes, excluded mounts, and a few malformed lines. A case is non-trivial when the tree "
         "has a symlink, a mount beneath the output path, a secret, or a file larger than one block; distinct = "
         "distinct case line")
@@ -119,8 +121,8 @@ def parse_case(case):
                 if not t:
                     return None
                 c.host[path] = ("l", t)
-            elif k == "p":
-                c.host[path] = ("p",)
+            elif k in ("p", "s", "c", "b"):       # FIFO, socket, character device, block device
+                c.host[path] = ("p", k)
             else:
                 return None
         for i in range(1, 4):
@@ -1024,7 +1026,7 @@ class Gen:
             d = r.choice([p for p, k in self.kinds.items() if k == "d"])
             n = self.name_for(d)
             if n:
-                self.add(d + (n,), "p")
+                self.add(d + (n,), r.choice("pscb"))
 
     def chain(self, n=None):
         """a chain of links of a chosen length ending at a file, or a ring"""
@@ -1086,7 +1088,7 @@ class Gen:
             elif k == "l":
                 hs.append("%s:l:%s" % (hp, hx(a)))
             else:
-                hs.append("%s:p:" % hp)
+                hs.append("%s:%s:" % (hp, k))
         ms = ["%s:%s:%s:%s:%s" % (hx(m[0]), m[1], m[2] or "-", "-" if m[3] is None else m[3], hx(m[4])) for m in self.mounts]
         cs = []
         for streams in self.colls:
@@ -1132,7 +1134,7 @@ def generate(rng, tier):
     cases = boundary_cases(rng)
     for i in range(n):
         clean = rng.random() < 0.6
-        prof = {"irregular": 0.0 if clean else 0.12, "special": 0.0 if clean else 0.06, "clean": clean}
+        prof = {"irregular": 0.0 if clean else 0.12, "special": 0.0 if clean else 0.10, "clean": clean}
         cases.append(gen_case(rng, prof))
     # malformed stream: broken hex, unknown kinds, wrong field counts
     base = cases[:12]
@@ -1166,7 +1168,7 @@ def nontrivial_key(case, impl):
 def describe(cases, impl):
     d = {"outcomes": {}, "links_followed": 0, "cases_with_irregular_link": 0, "cases_with_nested_mounts": 0, "cases_with_cycle": 0,
          "cases_must_fail": 0, "cases_with_dangling": 0, "mounts_below_output": 0, "collection_mounts": 0,
-         "secrets": 0, "max_chain": 0, "cases_with_11_links_on_a_path": 0, "cases_with_12plus_links_on_a_path": 0, "entries": {}, "multi_block_files": 0, "special_files": 0}
+         "secrets": 0, "max_chain": 0, "cases_with_11_links_on_a_path": 0, "cases_with_12plus_links_on_a_path": 0, "entries": {}, "multi_block_files": 0, "special_files": 0, "special_kinds": {}}
     for c, r in zip(cases, impl):
         key = (r or "none").split(" ")[0:2]
         key = " ".join(key) if key and key[0] in ("err", "panic") else key[0]
@@ -1184,6 +1186,10 @@ def describe(cases, impl):
         d["secrets"] += len(pc.secrets)
         d["multi_block_files"] += sum(1 for x in pc.host.values() if x[0] == "f" and len(x[1]) > pc.bs)
         d["special_files"] += sum(1 for x in pc.host.values() if x[0] == "p")
+        for x in pc.host.values():
+            if x[0] == "p":
+                kind = {"p": "fifo", "s": "socket", "c": "chardev", "b": "blockdev"}[x[1]]
+                d["special_kinds"][kind] = d["special_kinds"].get(kind, 0) + 1
         if v is not None:
             d["links_followed"] += v.links
             d["cases_with_irregular_link"] += 1 if v.irregular else 0
